@@ -31,7 +31,7 @@ ASSUMPTIONS = [
 def cases(draw, tier):
     cls = draw(st.sampled_from(["H", "H", "DH", "SC"]))
     spec = draw(nets.net_spec(wide_labels=True, cls=cls, max_edges=6, allow_empty=(cls != "SC" and draw(st.integers(0, 2)) == 0), nested=True))
-    return {"spec": spec, "keys": draw(st.lists(st.integers(0, 10**6), min_size=8, max_size=8))}
+    return {"spec": spec, "keys": draw(st.lists(st.integers(0, 10**6), min_size=8, max_size=8)), "awkward": draw(st.integers(0, 3)) == 0}
 
 
 def strategy(tier):
@@ -81,6 +81,8 @@ def attempt(ctx, name, f):
 
 def run_case(case, ctx):
     H = nets.build(case["spec"])
+    if case.get("awkward"):
+        nets.awkward_attr_names(H)
     cls = case["spec"]["cls"]
     keys = case["keys"]
     ctx.event("class:" + cls)
